@@ -1,4 +1,5 @@
 import Martian.Props.C03.Wire
+import Martian.Props.C03.Facts
 import Martian.Lemmas.Proxy
 import Martian.Lemmas.ProxyTrace
 import Martian.Lemmas.ProxyState
